@@ -15,6 +15,9 @@ import time
 from harness import common
 from harness.common import Ctx, MachineryError, Outcome, Violation
 
+STEP_BOUND = 60000        # scheduler steps; the longest run of any quick/thorough family on the unchanged tree needs < 1/6 of it
+                          # (the maximum seen is reported in the evidence as max_steps_seen)
+
 ABS = os.path.join(common.SPECS, 'runtime', 'RuntimeAbs.tla')
 ABS_CFG = os.path.join(common.SPECS, 'runtime', 'RuntimeAbs.cfg')
 
@@ -23,11 +26,13 @@ for _c in ('start-of-unsubmitted-task', 'task-body-ran-twice', 'submit-from-inac
            'await-foreign-future', 'future-resolved-twice', 'await-returned-before-children-ended',
            'wrong-or-misordered-value', 'next-duplicate-result', 'next-foreign-slot', 'client-result-before-root-ended',
            'client-got-foreign-result', 'error-not-raised-by-any-task-body', 'client-waits-forever',
-           'live-task-never-finished', 'live-task-never-started', 'result-delivered-twice', 'bad-reply-kind'):
+           'live-task-never-finished', 'live-task-never-started', 'result-delivered-twice', 'bad-reply-kind',
+           'no-progress-within-step-bound'):
     OWNER[_c] = 'C07'
 for _c in ('cancelled-future-delivered', 'cancelled-result-delivered', 'residue-of-cancelled-work'):
     OWNER[_c] = 'C12'
-for _c in ('status-inconsistent', 'server-dead-after-request', 'cross-client-leak', 'request-unanswered', 'live-task-refused'):
+for _c in ('status-inconsistent', 'server-dead-after-request', 'cross-client-leak', 'request-unanswered', 'live-task-refused',
+           'raised-error-never-reported'):
     OWNER[_c] = 'C13'
 for _c in ('client-waits-forever-after-crash', 'runtime-alive-after-crash', 'result-after-crash-incomplete'):
     OWNER[_c] = 'C14'
@@ -93,6 +98,49 @@ def _consume(rng, fu, cancel, leftover):
     return [['await', f]]
 
 
+def _pad(rng, most=3):
+    return [['sleep'] for _ in range(rng.randint(0, most))]
+
+
+def gen_late_error(rng):
+    """Task trees in which a descendant raises while the root still completes: the descendant's future is never awaited
+    (fire-and-forget submit, early return from a next() loop, a middle task that returns without awaiting).  Whether the
+    ERROR reaches the server before or after the root's RESULT, and whether the raise happens before the clean-up CANCEL of
+    the finishing ancestor reaches that worker, is up to the schedule; the padding makes both orders likely."""
+    # the task that abandons the raising child lingers (so that the child tends to raise BEFORE its future is orphaned: only
+    # then does L1 demand the error), the child raises at once
+    bad = _pad(rng, 1) + [['raise']]
+    linger = [['sleep'] for _ in range(rng.randint(4, 40))]
+    shape = rng.randrange(6)
+    if shape in (0, 5):
+        progs = {'root': [['submit', 'z', 'bad']] + linger + [['ret']]}
+    elif shape == 1:
+        progs = {'root': [['submit', 'z', 'bad']] + _pad(rng, 1) + [['submit', 'b', 'leaf'], ['await', 'b']] + _pad(rng, 2) + [['ret']]}
+    elif shape == 2:
+        progs = {'root': [['submit', 'z', 'bad'], ['map', 'm', 'leaf', rng.randint(2, 3)], ['next', 'm']] + _pad(rng, 2) + [['ret']]}
+    elif shape == 3:
+        progs = {'root': [['submit', 'a', 'mid'], ['await', 'a']] + _pad(rng, 1) + [['ret']],
+                 'mid': [['submit', 'z', 'bad']] + linger + [['ret']]}
+    else:
+        progs = {'root': [['map', 'm', 'mid', 2], ['await', 'm'], ['ret']],
+                 'mid': [['submit', 'z', 'bad']] + linger + [['ret']]}
+    progs['bad'] = bad
+    progs['leaf'] = [['ret']]
+    return progs
+
+
+def late_error_scripts(rng):
+    """One client: a compilation, then - after the system has settled - one more request on the same connection (the only
+    place where a client can learn of an error that arrived after the result)."""
+    return rng.choice([
+        [['submit', 'H', 'root'], ['result', 'H'], ['settle'], ['status', 'H']],
+        [['submit', 'H', 'root'], ['result', 'H'], ['settle'], ['cancel', 'H']],
+        [['submit', 'H', 'root'], ['result', 'H'], ['settle'], ['submit', 'H2', 'leaf'], ['result', 'H2']],
+        [['submit', 'H', 'root'], ['settle'], ['status', 'H'], ['result', 'H']],
+        [['submit', 'H', 'root'], ['status', 'H'], ['result', 'H'], ['settle'], ['status', 'H']],
+    ])
+
+
 LIB = {
     'A': {'root': [['map', 'm', 'leaf', 3], ['await', 'm'], ['submit', 'a', 'leaf'], ['submit', 'b', 'leaf'], ['await', 'a'], ['await', 'b'], ['ret']], 'leaf': [['ret']]},
     'B': {'root': [['map', 'm', 'mid', 2], ['await', 'm'], ['ret']], 'mid': [['submit', 'a', 'leaf'], ['await', 'a'], ['ret']], 'leaf': [['ret']]},
@@ -151,7 +199,15 @@ def _init_worker():
 def _run_one(sc):
     from harness import rtdrive
     try:
-        tr, dg = rtdrive.run_scenario(sc, max_steps=sc.get('max_steps', 300000))
+        bound = sc.get('max_steps', STEP_BOUND)
+        tr, dg = rtdrive.run_scenario(sc, max_steps=bound)
+        if dg['status'] == 'maxsteps':
+            # not a harness failure: repeat once with a four-fold bound; if the system still does not fall idle the trace
+            # ends in a snapshot marked "livelock" and L1 judges it (bounded-fairness reading of "for ever")
+            first = dg['steps']
+            tr, dg = rtdrive.run_scenario(sc, max_steps=4 * bound)
+            dg['notes'] = list(dg['notes']) + ['step bound %d reached (%d steps); repeated with bound %d: %s after %d steps'
+                                               % (bound, first, 4 * bound, dg['status'], dg['steps'])]
         return tr, dg, None
     except Exception as e:          # harness failure, reported as machinery error by the caller
         import traceback
@@ -161,6 +217,8 @@ def _run_one(sc):
 def run_scenarios(scs, procs=14):
     if not scs:
         return []
+    # import the tree under test once, here: the forked pool workers inherit it (importing bqskit costs ~10 s of CPU per process)
+    _init_worker()
     ctx = mp.get_context('fork')
     with ctx.Pool(min(procs, max(1, len(scs))), initializer=_init_worker) as pool:
         return pool.map(_run_one, scs, chunksize=max(1, len(scs) // (procs * 8)))
@@ -177,13 +235,15 @@ def validate(prop, scs, ctx: Ctx, also=(), extra_cov=None, extra_traces=(), keep
     results = list(results) + [(x[0], x[1], None) for x in extra_traces]
     traces, keep = [], []
     out = Outcome(prop)
-    nfail = 0
+    nfail = nstuck = 0
     for sc, (tr, dg, err) in zip(scs, results):
-        if err is not None or dg['status'] == 'maxsteps':
+        if err is not None:
             nfail += 1
             if nfail <= 3:
-                out.notes.append('HARNESS-NOTE scenario did not run to quiescence: %s' % (err or 'step bound reached')[-300:])
+                out.notes.append('HARNESS-NOTE scenario died with a harness exception: %s' % err[-300:])
             continue
+        if dg['status'] == 'maxsteps':
+            nstuck += 1           # judged by L1 through the livelock snapshot at the end of its trace
         traces.append(tr)
         keep.append((sc, dg))
         for n in dg['notes']:
@@ -192,7 +252,8 @@ def validate(prop, scs, ctx: Ctx, also=(), extra_cov=None, extra_traces=(), keep
     if nfail > max(3, len(scs) // 20):
         raise MachineryError('%d of %d scenarios failed to run' % (nfail, len(scs)))
     t1 = time.time()
-    verdicts, states, trans, _ = common.batch_validate(ABS, ABS_CFG, traces, ctx.scratch, chunk=1500, parallel=8)
+    # (one JVM per ~100 traces, at most 8: starting a JVM costs more than validating a few dozen traces)
+    verdicts, states, trans, _ = common.batch_validate(ABS, ABS_CFG, traces, ctx.scratch, chunk=1500, parallel=min(8, 1 + len(traces) // 100))
     t_tlc = time.time() - t1
     other = {}
     for idx, step, clause, _ in verdicts:
@@ -203,6 +264,11 @@ def validate(prop, scs, ctx: Ctx, also=(), extra_cov=None, extra_traces=(), keep
         e = traces[idx]['ev'][step - 1]
         if own == prop or own in also:
             feats = features(sc)
+            # a clause may carry a qualifier that belongs into the key (what a known-finding entry can match on), not the name
+            for suffix, val in ((':explained', True), (':unexplained', False)):
+                if clause.endswith(suffix):
+                    clause = clause[:-len(suffix)]
+                    feats['explained'] = val
             key = {'clause': clause}
             key.update(feats)
             ev_small = {k: v for k, v in e.items() if v not in (0, [], '', False)}
@@ -244,6 +310,9 @@ def validate(prop, scs, ctx: Ctx, also=(), extra_cov=None, extra_traces=(), keep
         'trusted_base': ['TLC', 'harness/sim.py (scheduler and OS shims: FIFO channels, pickled payloads, process death)',
                          'harness/rtprog.py event logging', 'harness/rtdrive.py projections'],
         'scenario_features': _feature_counts(scs),
+        'max_steps_seen': max([dg['steps'] for _, dg in keep] or [0]), 'step_bound': STEP_BOUND,
+        'runs_that_never_fell_idle': nstuck,
+        'situations_reached': _situations([dg for _, dg in keep]),
     }
     if extra_cov:
         cov.update(extra_cov)
@@ -251,6 +320,18 @@ def validate(prop, scs, ctx: Ctx, also=(), extra_cov=None, extra_traces=(), keep
     if keep_items:
         out.items = [(tr, dg, sc) for tr, (sc, dg) in zip(traces, keep)]
     return out
+
+
+def _situations(diags):
+    """How often the situations the scenario families aim at were actually reached (counters kept by harness/rtdrive.py):
+    sums over all runs, and `runs_with:<name>` = number of runs in which the counter was non-zero."""
+    tot = {}
+    for dg in diags:
+        for k, v in (dg.get('stats') or {}).items():
+            tot[k] = tot.get(k, 0) + int(v)
+            if v:
+                tot['runs_with:' + k] = tot.get('runs_with:' + k, 0) + 1
+    return tot
 
 
 def _feature_counts(scs):
